@@ -761,10 +761,7 @@ func c18RunCall(out *zzverif.Out, c *c18Case, fix bool, realS *Sampler, r float3
 	// ---- the real call
 	res := c18CallSample(realS, c.logits)
 	out.Count("res_" + strings.Fields(res.head)[0])
-	fixFlag := 0
-	if fix {
-		fixFlag = 1
-	}
+	fixFlag := c18FixMask()
 	preFlag := 0
 	if pre {
 		preFlag = 1
@@ -822,6 +819,10 @@ func c18RunCall(out *zzverif.Out, c *c18Case, fix bool, realS *Sampler, r float3
 	}
 	return consumed, pre, res, stage
 }
+
+// c18FixMask: which repairs the tree under test contains (VERIF_C18_FIX): bit 0 = F18 max-shift,
+// bit 1 = F18c (greedy reports all -Inf as an error).  Passed to the oracle on every op.
+func c18FixMask() int { return zzverif.EnvInt("VERIF_C18_FIX", 0) }
 
 // c18FixedSrc is a rand.Source that always returns the same word.
 type c18FixedSrc uint64
@@ -1169,10 +1170,7 @@ func c18RunHist(out *zzverif.Out, h *c18Hist, fix bool) {
 		out.L2("not-reproducible", line, fmt.Sprintf("same seed, same inputs: %s vs %s", strings.Join(a, ";"), strings.Join(b, ";")))
 	}
 	if !anyPre && !h.weird {
-		fixFlag := 0
-		if fix {
-			fixFlag = 1
-		}
+		fixFlag := c18FixMask()
 		var op strings.Builder
 		fmt.Fprintf(&op, "hist %d %s %d %s %s %d %d", fixFlag, c18Bits(h.temp), h.k, c18Bits(h.p), c18Bits(h.mp), h.seed, len(h.calls))
 		tbl := map[string]string{}
@@ -1276,7 +1274,7 @@ func c18GreedyNearTies(out *zzverif.Out, r *zzverif.Rng, fix bool) {
 func TestVerifC18(t *testing.T) {
 	out := zzverif.NewOut()
 	defer out.Close()
-	fix := os.Getenv("VERIF_C18_FIX") == "1"
+	fix := c18FixMask()&1 != 0
 	if rp := os.Getenv("VERIF_REPLAY"); rp != "" {
 		b, err := os.ReadFile(rp)
 		if err != nil {
